@@ -1233,6 +1233,7 @@ def rule_lk3(ctx, rels, scope=None):
             if not params:
                 continue
             bufs = {}
+            sdefs_lk3 = single_defs(f.node)
             for st in ast.walk(f.node):
                 if not (isinstance(st, ast.Assign) and len(st.targets) == 1
                         and isinstance(st.targets[0], ast.Name)
@@ -1242,10 +1243,14 @@ def rule_lk3(ctx, rels, scope=None):
                 fn = dotted(c.func)
                 inner = c
                 if fn in ("np.tile", "np.broadcast_to", "np.array",
-                          "np.copy") and c.args \
-                        and isinstance(c.args[0], ast.Call):
-                    inner = c.args[0]
-                    fn = dotted(inner.func)
+                          "np.copy") and c.args:
+                    a0 = c.args[0]
+                    if isinstance(a0, ast.Name) and isinstance(
+                            sdefs_lk3.get(a0.id), ast.Call):
+                        a0 = sdefs_lk3[a0.id]
+                    if isinstance(a0, ast.Call):
+                        inner = a0
+                        fn = dotted(inner.func)
                 if fn not in _UNTYPED_MAKERS:
                     continue
                 kws = {k.arg for k in inner.keywords} | {k.arg
